@@ -139,6 +139,10 @@ package gcsemu
 //@ func (g *GcsEmu) handleGcsNewObjectResume
 //@   property C02 C04 C20
 //@   callsite builtin.append requires byteRange.lo == -1 ? len(arg1) == 0 : (len(arg0) == byteRange.lo && len(arg1) == byteRange.hi + 1 - byteRange.lo)
+// the same fact stated on what is reported / stored, whatever the way the buffer is assembled: after a chunk with
+// range [lo, hi] the buffer ends at hi (a retried shorter chunk leaves no stale tail behind)
+//@   callsite Sprintf requires arg0 == "bytes=0-%d" ==> (byteRange.lo == -1 || len(u.data) == byteRange.hi + 1)
+//@   callsite finishUpload requires byteRange.lo == -1 || len(arg4) == byteRange.hi + 1
 //@   requires w != nil && r != nil && r.Body != nil
 //@   requires !isnil(ctx)
 //@   modifies *, ghost(jsonBodies), ghost(epoch), ghost(gcsValidEpoch), ghost(gcsReadEpoch), ghost(gcsReadObj), ghost(gcsReadMetagen), ghost(lmTick), ghost(lmLastOp), ghost(lmLastId)
